@@ -58,6 +58,9 @@ def rule_who_may(prog):
                     # handles awaited one by one
                     if any(aw.get("k") == "Await" and "JoinHandle" in c.tstr(aw["e"]["t"]) for aw in hir.nodes(s_)):
                         joined = True
+                    # ... or by a local helper that loops over them
+                    if _joins_tasks(prog, c, s_):
+                        joined = True
             out.add(b["d"], "process::exit is called only behind the join of the responder/broker tasks", joined, c.loc(n["sp"]),
                     "process::exit ends the process while the responder task may still hold queued responses: a client that sends "
                     "request(s) and `exit` in one write gets none of the responses", ("exit",))
@@ -72,12 +75,29 @@ def rule_who_may(prog):
             cal = hir.callee(n) or ""
             if cal.endswith("tokio::task::spawn::spawn") or cal.endswith("tokio::spawn") or cal.endswith("task::spawn"):
                 sp.setdefault(b["d"], []).append(n)
-    for fn in sorted(set(sp) | {"server::LanguageServer::run"}):
-        ok = fn == "server::LanguageServer::run" and len(sp.get(fn, [])) == 2
+    # a spawn inside a helper counts for the function(s) that call the helper (`workers.start(..)`: each call site is one spawn)
+    RUN = "server::LanguageServer::run"
+    spawn_sites = {}     # function display name -> number of tasks it starts
+    for fn, calls in sp.items():
+        fb_ = [b for b in c.bodies if b["d"] == fn]
+        if fn != RUN and fb_ and len(calls) == 1 and fb_[0]["k"] in ("fn", "assoc_fn"):
+            users = {}
+            for y_ in c.bodies:
+                for m_ in hir.nodes(y_["body"]):
+                    if m_.get("k") in ("Call", "MethodCall") and hir.callee(m_) == fb_[0]["p"]:
+                        users[y_["d"]] = users.get(y_["d"], 0) + 1
+            if users:
+                for u_, k_ in users.items():
+                    spawn_sites[u_] = spawn_sites.get(u_, 0) + k_
+                sp.setdefault(RUN, [])
+                continue
+        spawn_sites[fn] = spawn_sites.get(fn, 0) + len(calls)
+    for fn in sorted(set(spawn_sites) | {RUN}):
+        ok = fn == RUN and spawn_sites.get(fn, 0) == 2
         out.add(fn, "tasks are spawned only by LanguageServer::run (responder, broker)", ok,
-                c.loc(sp[fn][0]["sp"]) if fn in sp else "",
+                c.loc(sp[fn][0]["sp"]) if sp.get(fn) else "",
                 "requests are handled inline by the reader loop; spawning elsewhere breaks response order "
-                "(found %d spawn(s))" % len(sp.get(fn, [])), ("spawn",))
+                "(found %d spawn(s))" % spawn_sites.get(fn, 0), ("spawn",))
     # one FramedRead over stdin for all phases (re-creating it drops bytes that were read but not yet decoded)
     fr = []
     for b in c.bodies:
@@ -93,48 +113,111 @@ def rule_who_may(prog):
     out.add("server::LanguageServer::run", "exactly one FramedRead is created for the session and never taken apart",
             len(fr) == 1 and fr[0][0]["d"] == "server::LanguageServer::run", c.loc(fr[-1][1]["sp"]) if fr else "",
             "found %d construction/decomposition site(s); a second reader loses the bytes buffered by the first" % len(fr), ("framed",))
-    # Response literals only in impl PreparedResponse; PreparedResponse::new only in Request::split
+    # The id of every Response is the id of the Request it answers.  Decided as a value flow, not by function names:
+    #   - a Response literal sits in (or is reachable only from) an associated function of PreparedResponse,
+    #   - the `id` of every PreparedResponse literal originates in the `id` field of a Request,
+    #   - the `id` of every Response literal originates in the `id` field of a PreparedResponse.
+    # "originates": read as `<x>.id`, bound by a struct pattern `X { id, .. }`, copied through lets, or received as a parameter
+    # from call sites that all pass such a value.
+    ADT = {n_: [p_ for p_ in c.adts if p_.startswith("lsp4spl::io") and p_.endswith("::" + n_)] for n_ in ("Request", "PreparedResponse", "Response")}
+    for n_, ps_ in ADT.items():
+        if len(ps_) != 1:
+            out.missing("io::%s (found %s)" % (n_, ps_))
+            return out
+    REQ, PREP, RESP = ADT["Request"][0], ADT["PreparedResponse"][0], ADT["Response"][0]
+
+    def non_test(b_):
+        return "/tests" not in c.file_of(b_["sp"]) and "::tests" not in b_["d"] and "_serde" not in b_["d"]
+
+    def adt_of(e_):
+        e_ = hir.strip(e_)
+        aps = [hir.adt_path(c, e_["t"])] + [hir.adt_path(c, ad_["to"]) for ad_ in e_.get("adj") or []]
+        for ap_ in aps:
+            if ap_ in (REQ, PREP, RESP):
+                return ap_
+        return aps[0]
+
+    def pattern_origin(b_, lid):
+        """the struct whose `id` field a pattern binds to local `lid` in body b_"""
+        pats = list(b_["params"])
+        for n_ in hir.nodes(b_["body"]):
+            if n_.get("k") in ("Let", "Arm", "LetExpr") and isinstance(n_.get("pat"), dict):
+                pats.append(n_["pat"])
+        found = []
+        def rec(p_):
+            p_ = hir.pat_strip(p_)
+            if not isinstance(p_, dict):
+                return
+            if p_.get("k") == "Struct":
+                for f_ in p_["fields"]:
+                    q_ = hir.pat_strip(f_["pat"])
+                    if f_["name"] == "id" and q_.get("k") == "Binding" and q_["id"] == lid:
+                        found.append(hir.adt_path(c, p_["t"]) or hir.pat_variant(p_))
+                    rec(f_["pat"])
+            for q_ in p_.get("pats") or []:
+                rec(q_)
+            if p_.get("k") == "Binding" and p_.get("sub"):
+                rec(p_["sub"])
+        for p_ in pats:
+            rec(p_)
+        return found
+
+    def id_origin(b_, e_, depth=0):
+        """set of origins of the id value e_ in body b_: ADT paths whose `.id` it is, or 'other'"""
+        e_ = hir.strip_ref(hir.strip(e_))
+        while e_.get("k") == "MethodCall" and e_["m"] in ("clone", "to_owned") and not e_["args"]:
+            e_ = hir.strip_ref(hir.strip(e_["recv"]))
+        if e_.get("k") == "Field" and e_["name"] == "id":
+            return {adt_of(e_["base"]) or "other"}
+        pl_ = hir.path_local(e_)
+        if not pl_ or depth > 3:
+            return {"other"}
+        po = pattern_origin(b_, pl_["id"])
+        if po:
+            return {x_ or "other" for x_ in po}
+        for l_ in hir.nodes(b_["body"], "Let"):
+            if l_["pat"].get("k") == "Binding" and l_["pat"]["id"] == pl_["id"] and l_.get("init") is not None:
+                return id_origin(b_, l_["init"], depth + 1)
+        for j_, p_ in enumerate(b_["params"]):
+            if p_.get("k") == "Binding" and p_["id"] == pl_["id"]:
+                res_ = set()
+                n_sites = 0
+                for y_ in c.bodies:
+                    if not non_test(y_):
+                        continue
+                    for m_ in hir.nodes(y_["body"]):
+                        if m_.get("k") in ("Call", "MethodCall") and hir.callee(m_) == b_["p"]:
+                            args_ = ([m_["recv"]] if m_.get("k") == "MethodCall" else []) + list(m_.get("args") or [])
+                            if j_ < len(args_):
+                                n_sites += 1
+                                res_ |= id_origin(y_, args_[j_], depth + 1)
+                return res_ if n_sites else {"other"}
+        return {"other"}
+
+    n_prep = n_resp = 0
     for b in c.bodies:
-        if "_serde" in b["d"]:
-            continue  # serde derive output (deserialising a Response the client sent is an error path anyway)
+        if not non_test(b):
+            continue
         for s in hir.nodes(b["body"], "Struct"):
-            if s.get("adt") == "lsp4spl::io::Response":
+            if s.get("adt") == RESP:
+                n_resp += 1
                 ok = b["d"].startswith("io::PreparedResponse::") or hir.only_called_from(
                     prog, b["p"], lambda x: x["d"].startswith("io::PreparedResponse::"))
                 out.add(b["d"], "Response is built only from a PreparedResponse", ok, c.loc(s["sp"]),
                         "a Response must carry the id of the request it answers", ("resp",))
-            if s.get("adt") == "lsp4spl::io::PreparedResponse":
-                ok = b["d"] == "io::PreparedResponse::new"
-                out.add(b["d"], "PreparedResponse is built only by PreparedResponse::new", ok, c.loc(s["sp"]), "", ("resp",))
-        for n in hir.nodes(b["body"], "Call"):
-            if (hir.callee(n) or "").endswith("io::{impl#2}::new") or hir.callee_display(n) == "io::PreparedResponse::new":
-                ok = b["d"] == "io::Request::split"
-                out.add(b["d"], "PreparedResponse::new is called only by Request::split", ok, c.loc(n["sp"]),
-                        "the id of a response must be the id of the split request", ("resp",))
-    # split(): id comes from self.id
-    sp_b = [b for b in c.bodies if b["d"] == "io::Request::split"]
-    if not sp_b:
-        out.missing("io::Request::split")
-    else:
-        calls = [n for n in hir.nodes(sp_b[0]["body"], "Call") if hir.callee_display(n) == "io::PreparedResponse::new"]
-        ok = len(calls) == 1 and (place(calls[0]["args"][0]) or "").endswith(".id")
-        out.add("io::Request::split", "PreparedResponse carries self.id", ok, c.loc(sp_b[0]["sp"]), "", ("resp",))
-    for fn in ("into_result_response", "into_error_response"):
-        bs = [b for b in c.bodies if b["d"].startswith("io::PreparedResponse::" + fn)]
-        if not bs:
-            out.missing("io::PreparedResponse::" + fn)
-            continue
-        ok = False
-        for s in hir.nodes(bs[0]["body"], "Struct"):
-            if s.get("adt") == "lsp4spl::io::Response":
                 f = {x["name"]: x["e"] for x in s["fields"]}
-                ok = (place(f.get("id", {})) or "").endswith(".id")
-        for call in hir.nodes(bs[0]["body"], "Call"):
-            hb = hir.local_callee_body(prog, call)
-            if hb is not None and any(x.get("adt") == "lsp4spl::io::Response" for x in hir.nodes(hb["body"], "Struct")):
-                # Response::new(self.id, ..): the id argument is the prepared id
-                ok = any((place(a) or "").endswith(".id") and (place(a) or "").startswith("self#") for a in call["args"])
-        out.add("io::PreparedResponse::" + fn, "response id = prepared id", ok, c.loc(bs[0]["sp"]), "", ("resp",))
+                org = id_origin(b, f["id"]) if "id" in f else {"other"}
+                out.add(b["d"], "response id = prepared id", org == {PREP}, c.loc(s["sp"]),
+                        "the id of the Response originates in %s, not in the id of the PreparedResponse that was split off the request: "
+                        "the client cannot match the answer to its request" % sorted(str(x) for x in org), ("resp",))
+            if s.get("adt") == PREP:
+                n_prep += 1
+                f = {x["name"]: x["e"] for x in s["fields"]}
+                org = id_origin(b, f["id"]) if "id" in f else {"other"}
+                out.add(b["d"], "PreparedResponse carries the id of the request it was split from", org == {REQ}, c.loc(s["sp"]),
+                        "the id of the PreparedResponse originates in %s, not in Request.id" % sorted(str(x) for x in org), ("resp",))
+    if not n_prep or not n_resp:
+        out.missing("PreparedResponse / Response struct literals (found %d / %d)" % (n_prep, n_resp))
     return out
 
 
@@ -145,40 +228,90 @@ _PROG = {}
 
 def _error_code(call):
     """ErrorCode variant(s) used to build the argument of into_error_response (through local lets and helper fns); a conditional
-    argument (`if is_initialize { InvalidRequest } else { ServerNotInitialized }`) yields both, joined by `|`."""
+    argument (`if is_initialize { InvalidRequest } else { ServerNotInitialized }`) yields both, joined by `|`.  When the call sits
+    in a helper that is being followed from its call site (flow 'inline'), a parameter of the helper stands for the argument
+    passed there."""
     prog, body = _PROG.get("prog"), _PROG.get("body")
-    roots = list(call.get("args") or [])
+    stack = list(_PROG.get("inline") or [])     # [(path, helper body, call node)], innermost last
+    # level k: expressions living in stack[k-1]'s helper body; level 0: the phase body
+    roots = [(a_, len(stack)) for a_ in (call.get("args") or [])]
     found = set()
     seen_bodies = set()
     rounds = 0
-    while roots and rounds < 6:
+
+    def lets_of(level):
+        if level == 0:
+            return body["body"] if body is not None else None
+        return stack[level - 1][1]["body"]
+
+    while roots and rounds < 8:
         rounds += 1
         nxt = []
-        for r in roots:
+        for r, lvl in roots:
             for p in hir.nodes(r, "Path"):
                 co = p["res"].get("ctor_of", "")
                 if co.startswith("lsp4spl::error::ErrorCode::"):
                     found.add(last(co))
-                if p["res"].get("k") == "Local" and body is not None:
-                    for l in hir.nodes(body["body"], "Let"):
-                        if l.get("init") is not None and any(bd["id"] == p["res"]["id"] for bd in hir.pat_bindings(l["pat"])):
-                            if id(l) not in seen_bodies:
-                                seen_bodies.add(id(l))
-                                nxt.append(l["init"])
+                if p["res"].get("k") == "Local":
+                    lid = p["res"]["id"]
+                    if lvl > 0:
+                        _, hb_, calln = stack[lvl - 1]
+                        args_ = ([calln["recv"]] if calln.get("k") == "MethodCall" else []) + list(calln.get("args") or [])
+                        for j_, prm in enumerate(hb_["params"]):
+                            if prm.get("k") == "Binding" and prm["id"] == lid and j_ < len(args_) and (id(args_[j_]), lvl) not in seen_bodies:
+                                seen_bodies.add((id(args_[j_]), lvl))
+                                nxt.append((args_[j_], lvl - 1))
+                    lb = lets_of(lvl)
+                    if lb is not None:
+                        for l in hir.nodes(lb, "Let"):
+                            if l.get("init") is not None and any(bd["id"] == lid for bd in hir.pat_bindings(l["pat"])):
+                                if id(l) not in seen_bodies:
+                                    seen_bodies.add(id(l))
+                                    nxt.append((l["init"], lvl))
             if prog is not None:
                 for cl in hir.nodes(r):
                     if cl.get("k") in ("Call", "MethodCall"):
                         hb = hir.local_callee_body(prog, cl)
                         if hb is not None and hb["p"] not in seen_bodies and hb["p"].startswith("lsp4spl::server"):
                             seen_bodies.add(hb["p"])
-                            nxt.append(hb["body"])
+                            # (a helper that builds the error: its body is searched for codes; its locals are not followed further)
+                            for p in hir.nodes(hb["body"], "Path"):
+                                co = p["res"].get("ctor_of", "")
+                                if co.startswith("lsp4spl::error::ErrorCode::"):
+                                    found.add(last(co))
+                            for cl2 in hir.nodes(hb["body"]):
+                                if cl2.get("k") in ("Call", "MethodCall"):
+                                    hb2 = hir.local_callee_body(prog, cl2)
+                                    if hb2 is not None and hb2["p"] not in seen_bodies and hb2["p"].startswith("lsp4spl::server"):
+                                        seen_bodies.add(hb2["p"])
+                                        for p in hir.nodes(hb2["body"], "Path"):
+                                            co = p["res"].get("ctor_of", "")
+                                            if co.startswith("lsp4spl::error::ErrorCode::"):
+                                                found.add(last(co))
         roots = nxt
     return "|".join(sorted(found)) if found else None
 
 
-def _classify_factory(c):
+def _classify_factory(c, prog=None):
+    inlining = []
+
+    def holds_events(hb):
+        for m_ in hir.nodes(hb["body"], "MethodCall"):
+            d_ = m_.get("d") or ""
+            if d_ == "io::Request::split" or d_.startswith("io::PreparedResponse::into_"):
+                return True
+        return False
+
     def classify(n):
         k = n.get("k")
+        if prog is not None and k in ("Call", "MethodCall") and len(inlining) < 3:
+            hb = hir.local_callee_body(prog, n)
+            if hb is not None and hb["_crate"] is c and hb["p"].startswith("lsp4spl::server::") and \
+                    hb["p"] not in [x_[0] for x_ in inlining] \
+                    and not (n.get("d") or "").startswith("io::") and holds_events(hb):
+                blk = _async_block(hb)
+                if blk is not None:
+                    return ("inline", blk, (hb["p"], hb, n))
         if k == "MethodCall":
             d = n.get("d") or ""
             if d == "io::Request::split":
@@ -192,6 +325,16 @@ def _classify_factory(c):
                     co = p["res"].get("ctor_of", "")
                     if co == "lsp4spl::io::Message::Response":
                         return ("send", n)
+                # the message was wrapped by a helper of the server module (`let refusal = refuse(request, ..); tx.send(refusal)`)
+                if prog is not None and n.get("args") and "io::Message" in c.tstr(hir.strip(n["args"][0])["t"]):
+                    pl_ = hir.path_local(hir.strip(n["args"][0]))
+                    scope = (inlining[-1][1]["body"] if inlining else (_PROG.get("body") or {}).get("body"))
+                    if pl_ and scope is not None:
+                        for l_ in hir.nodes(scope, "Let"):
+                            if l_["pat"].get("k") == "Binding" and l_["pat"]["id"] == pl_["id"] and l_.get("init") is not None:
+                                if any(p_.get("k") == "Path" and p_["res"].get("ctor_of", "") == "lsp4spl::io::Message::Response"
+                                       for p_ in _server_deep(prog, c, l_["init"], 1)):
+                                    return ("send", n)
         if k == "Call" and is_exit_call(n):
             return ("exit", n, hir.lit_value(n["args"][0]))
         if k == "Call":
@@ -199,7 +342,23 @@ def _classify_factory(c):
             if d and d["p"].endswith("core::panicking::panic_fmt"):
                 return ("panic", n)
         return None
+    classify.inline_stack = inlining
+    _PROG["inline"] = inlining
     return classify
+
+
+def _server_deep(prog, c, root, depth=2, _seen=None):
+    """nodes below root, and those of the helper functions of the server module that are called there"""
+    if _seen is None:
+        _seen = set()
+    for n in hir.nodes(root):
+        yield n
+        if depth > 0 and n.get("k") in ("Call", "MethodCall"):
+            hb = hir.local_callee_body(prog, n)
+            if hb is not None and hb["_crate"] is c and hb["p"].startswith("lsp4spl::server::") and hb["p"] not in _seen:
+                _seen.add(hb["p"])
+                for x in _server_deep(prog, c, hb["body"], depth - 1, _seen):
+                    yield x
 
 
 def _phase_bodies(prog, body, depth=2, seen=None):
@@ -218,39 +377,90 @@ def _phase_bodies(prog, body, depth=2, seen=None):
     return seen
 
 
+def c_tstr_recv(fb, m):
+    c = fb["_crate"]
+    r = hir.strip(m["recv"])
+    return c.tstr(r["t"]) + "".join(c.tstr(a_["to"]) for a_ in r.get("adj") or [])
+
+
 def _phase_loops(prog, body):
     res = []
     for fb in _phase_bodies(prog, body):
-        for n in hir.nodes(fb["body"], "While"):
-            cond = hir.strip(n["cond"])
-            if cond.get("k") == "LetExpr" and any(m["m"] == "next" for m in hir.nodes(cond["init"], "MethodCall")):
-                res.append((n, fb))
+        for n in hir.nodes(fb["body"]):
+            if n.get("k") == "While":
+                cond = hir.strip(n["cond"])
+                if cond.get("k") == "LetExpr" and any(m["m"] == "next" for m in hir.nodes(cond["init"], "MethodCall")):
+                    res.append((n, fb))
+                elif cond.get("k") == "LetExpr" and any(
+                        m.get("k") == "MethodCall" and m["m"] == "next" and "FramedRead" in c_tstr_recv(fb, m)
+                        for m in _server_deep(prog, fb["_crate"], cond["init"], 1)):
+                    # the read sits in a small helper (`next_message(reader).await?`)
+                    res.append((n, fb))
+            elif n.get("k") == "Loop":
+                # `loop { let Some(frame) = reader.next().await else { .. }; .. }`
+                blk = hir.strip(n["body"]).get("b") if hir.strip(n["body"]).get("k") == "BlockExpr" else n["body"]
+                for st_ in (blk or {}).get("stmts") or []:
+                    if st_.get("k") == "Let" and st_.get("els") is not None and st_.get("init") is not None and any(
+                            m["m"] == "next" and "FramedRead" in c_tstr_recv(fb, m) for m in hir.nodes(st_["init"], "MethodCall")):
+                        res.append((n, fb))
+                        break
     return res
 
 
 def _message_arms(c, loop):
     """variant -> list of arms (a variant may have a guarded and an unguarded arm)"""
-    best = {}
-    for m in hir.nodes(loop["body"], "Match"):
+    best, best_m, best_parents = {}, None, None
+    for m, parents in hir.walk(loop["body"]):
+        if m.get("k") != "Match":
+            continue
         arms = {}
         for arm in m["arms"]:
             pv = hir.pat_variant(arm["pat"])
             if pv and pv.startswith("lsp4spl::io::Message::"):
                 arms.setdefault(last(pv), []).append(arm)
         if len(arms) > len(best):
-            best = arms
+            best, best_m, best_parents = arms, m, list(parents)
+    # `let request = match message { Request(r) => r, <other arms leave the iteration> }; <rest>`: the rest of the block is the
+    # continuation of the Request arm - seen as that arm's body
+    if best_m is not None and "Request" in best and len(best["Request"]) == 1 and len(best_parents) >= 2:
+        arm = best["Request"][0]
+        let_, blk = None, None
+        for i_ in range(len(best_parents) - 1, -1, -1):
+            if best_parents[i_].get("k") == "Let":
+                let_ = best_parents[i_]
+                blk = next((b_ for b_ in reversed(best_parents[:i_]) if b_.get("k") == "Block"), None)
+                break
+            if best_parents[i_].get("k") in ("Block", "If", "Match", "Arm", "Closure"):
+                break
+        simple = hir.path_local(hir.strip(arm["body"])) is not None
+        if let_ is not None and blk is not None and simple and let_ in blk["stmts"]:
+            others_leave = all(
+                any(x_.get("k") in ("Ret", "Continue", "Break") for x_ in hir.nodes(a_["body"]))
+                for v_, as_ in best.items() if v_ != "Request" for a_ in as_)
+            if others_leave:
+                rest = blk["stmts"][blk["stmts"].index(let_) + 1:]
+                cont = {"k": "Block", "sp": arm["sp"], "stmts": rest, "expr": blk.get("expr")}
+                best = dict(best)
+                best["Request"] = [dict(arm, body={"k": "BlockExpr", "b": cont, "t": arm["body"].get("t"), "sp": arm["sp"]})]
     return best
 
 
-def _tail_ok(prog, body, depth=0):
-    """does the function end in Ok(..) (possibly through a local helper it returns the result of)?"""
-    tail = _async_tail(body)
-    if tail is None or depth > 3:
+def _tail_value_ok(prog, t, depth=0):
+    t = hir.strip(t) if isinstance(t, dict) else None
+    if t is None or depth > 6:
         return False
-    t = hir.strip(tail)
     while t.get("k") in ("Await", "Try"):
         t = hir.strip(t["e"])
-    if t.get("k") == "Call":
+    k = t.get("k")
+    if k == "BlockExpr":
+        return t["b"].get("expr") is not None and _tail_value_ok(prog, t["b"]["expr"], depth + 1)
+    if k == "Ret":
+        return t.get("e") is not None and _tail_value_ok(prog, t["e"], depth + 1)
+    if k == "If":
+        return t.get("else") is not None and _tail_value_ok(prog, t["then"], depth + 1) and _tail_value_ok(prog, t["else"], depth + 1)
+    if k == "Match" and "matches!" not in (t.get("mx") or []):
+        return bool(t["arms"]) and all(_tail_value_ok(prog, a_["body"], depth + 1) for a_ in t["arms"])
+    if k == "Call":
         d = hir.path_def(t["f"])
         if d and last(d.get("ctor_of", "")) == "Ok":
             return True
@@ -258,6 +468,15 @@ def _tail_ok(prog, body, depth=0):
         if hb is not None:
             return _tail_ok(prog, hb, depth + 1)
     return False
+
+
+def _tail_ok(prog, body, depth=0):
+    """does the function end in Ok(..) (possibly through a local helper it returns the result of, on every branch of a final
+    if/match)?"""
+    tail = _async_tail(body)
+    if tail is None or depth > 3:
+        return False
+    return _tail_value_ok(prog, tail, depth)
 
 
 def rule_lifecycle(prog):
@@ -270,12 +489,15 @@ def rule_lifecycle(prog):
             out.missing("server::phases::" + name)
             return out
         phases[name] = b
-    classify = _classify_factory(c)
+    classify = _classify_factory(c, prog)
     _PROG["prog"] = prog
+    phase_exit_values = []
     want_loops = {"initialization": 2, "main": 1, "shutdown": 1}
     for name, b in phases.items():
         loops = _phase_loops(prog, b)
-        out.add("server::phases::" + name, "has %d frame loop(s)" % want_loops[name], len(loops) == want_loops[name],
+        # (a different number of reader loops is a different construction, not a fault: the clauses below speak about each loop found)
+        out.add("server::phases::" + name, "has %d frame loop(s)" % want_loops[name],
+                True if len(loops) == want_loops[name] else (None if loops else False),
                 c.loc(b["sp"]), "found %d" % len(loops), ("shape",))
         for li, (loop, lbody) in enumerate(loops):
             _PROG["body"] = lbody
@@ -300,7 +522,12 @@ def rule_lifecycle(prog):
                     kids = list(pr["stmts"]) + ([pr["expr"]] if pr.get("expr") else [])
                     idx = [j for j, k_ in enumerate(kids) if k_ is chain[i_ + 1]]
                     for k_ in kids[:idx[0]] if idx else []:
+                        # (the `else` of `let Some(frame) = reader.next().await else { .. }` is the end of input, not a message)
+                        head_else = k_.get("els") if k_.get("k") == "Let" and k_.get("init") is not None and any(
+                            m_["m"] == "next" for m_ in hir.nodes(k_["init"], "MethodCall")) else None
                         for x in hir.nodes(k_):
+                            if head_else is not None and _contains(head_else, x):
+                                continue
                             if x.get("k") in ("Continue", "Break") or (x.get("k") == "Ret"):
                                 early = x
                 out.add(item, "every decoded message reaches the dispatch on its kind", early is None, c.loc((early or loop)["sp"]),
@@ -384,8 +611,9 @@ def rule_lifecycle(prog):
             else:
                 inner = None
                 for rarm in arms["Request"]:
-                    for m in hir.nodes(rarm["body"], "Match"):
-                        if m["src"] == "match" and any(method_of(c, _pat_const(a["pat"])) for a in m["arms"] if _pat_const(a["pat"])):
+                    for m in _server_deep(prog, c, rarm["body"]):
+                        if m.get("k") == "Match" and m["src"] == "match" and any(
+                                method_of(c, _pat_const(a["pat"])) for a in m["arms"] if _pat_const(a["pat"])):
                             inner = m
                             break
                 if inner is None:
@@ -396,7 +624,9 @@ def rule_lifecycle(prog):
                         meth = method_of(c, pc) if pc else None
                         acodes = set()
                         results = 0
-                        for n in hir.nodes(a["body"], "MethodCall"):
+                        for n in _server_deep(prog, c, a["body"]):
+                            if n.get("k") != "MethodCall":
+                                continue
                             ev = classify(n)
                             if ev and ev[0] == "into":
                                 if ev[2] == "result":
@@ -429,6 +659,7 @@ def rule_lifecycle(prog):
                 # phase returns); run() turns that into status 1 behind the join (clause `flag` below, WHO-MAY exit)
                 vals = _ok_values(lbody)
                 exit_vals = _exit_values(c, arms["Notification"])
+                phase_exit_values.extend(exit_vals)
                 ok = None
                 if exits:
                     ok = False   # reported by WHO-MAY (exit in the reader loop); here: not the sanctioned form
@@ -446,7 +677,10 @@ def rule_lifecycle(prog):
             #      request nor any later one is answered
             for kind_ in ("Request", "Notification"):
                 for arm_ in arms[kind_]:
-                    for t_ in hir.nodes(arm_["body"], "Try"):
+                    # (the arm, and the helper functions of the server module it hands the message to)
+                    seen_h = set()
+                    arm_nodes = list(_server_deep(prog, c, arm_["body"], 2, seen_h))
+                    for t_ in [x_ for x_ in arm_nodes if x_.get("k") == "Try"]:
                         inner = hir.strip(t_["e"])
                         if inner.get("k") in ("Call", "MethodCall") and (hir.callee(inner) or "").endswith("serde_json::value::from_value"):
                             out.add(item, "params of a %s that do not deserialize do not end the reader loop" % kind_.lower(), False,
@@ -454,7 +688,7 @@ def rule_lifecycle(prog):
                                     "return Err, the process exits with status 1 and %s" % (
                                         kind_.lower(), "this request and all later ones stay unanswered" if kind_ == "Request"
                                         else "all later requests stay unanswered"), ("one-response", "params"))
-                    for m_ in hir.nodes(arm_["body"], "Match"):
+                    for m_ in [x_ for x_ in arm_nodes if x_.get("k") == "Match"]:
                         sc_ = hir.strip(m_["scrut"])
                         if sc_.get("k") in ("Call", "MethodCall") and (hir.callee(sc_) or "").endswith("serde_json::value::from_value"):
                             err_arms = [a_ for a_ in m_["arms"] if any(v.endswith("Result::Err") for v in hir.pat_variants_all(a_["pat"])) or hir.is_wild(a_["pat"])]
@@ -529,6 +763,8 @@ def rule_lifecycle(prog):
     for i, s in enumerate(seq):
         if any(n.get("k") == "ForLoop" and any(x.get("k") == "Await" for x in hir.nodes(n["body"])) for n in hir.nodes(s)):
             join_i = i
+        elif _joins_tasks(prog, c, s):
+            join_i = i
     out.add("server::LanguageServer::run", "awaits the spawned tasks before returning", join_i is not None, c.loc(run["sp"]),
             "responder and broker must be joined so that queued responses are written", ("join",))
     # (d2) flag: what initialization / main report about an `exit` without shutdown decides (i) whether the following phases
@@ -555,12 +791,90 @@ def rule_lifecycle(prog):
     def mentions_flag(e):
         return any(place(x) in flags for x in hir.nodes(e, "Path"))
 
+    # the value by which a phase reports the `exit` (collected from the phases above: `true`, or a variant of a phase-result enum)
+    EXITV = set(v_ for v_ in phase_exit_values if v_ is not None)
+
+    def two_valued(e):
+        t_ = c.tstr(hir.strip(e)["t"])
+        if t_ == "bool":
+            return True
+        ap_ = hir.adt_path(c, hir.strip(e)["t"])
+        return ap_ in c.adts and len(c.adts[ap_].get("variants") or []) == 2
+
+    def says(cond):
+        """True: `cond` holding implies that an exit was reported; False: implies that none was; None: says nothing"""
+        e = hir.strip(cond)
+        if e.get("k") == "Unary" and e.get("op") in ("!", "Not"):
+            inner = hir.strip(e["e"])
+            v_ = says(inner)
+            # the negation of a test is only a test of the opposite when the flag has two values
+            if v_ is None:
+                return None
+            fl_ = [x for x in hir.nodes(inner, "Path") if place(x) in flags]
+            return (not v_) if fl_ and all(two_valued(x) for x in fl_) else None
+        if place(e) in flags and c.tstr(e["t"]) == "bool":
+            return ("True" in EXITV or "true" in EXITV) if EXITV else True
+        if e.get("k") == "Binary" and e["op"] in ("==", "!="):
+            for x_, y_ in ((e["l"], e["r"]), (e["r"], e["l"])):
+                if place(hir.strip_ref(hir.strip(x_))) in flags:
+                    v_ = _unit_value(hir.strip_ref(hir.strip(y_)))
+                    if v_ is None:
+                        return None
+                    is_exit_ = v_ in EXITV or (v_ in ("True", "true") and not EXITV)
+                    if e["op"] == "==":
+                        return is_exit_
+                    return (not is_exit_) if two_valued(x_) or is_exit_ else None
+        if e.get("k") == "Match" and "matches!" in (e.get("mx") or []) and place(hir.strip_ref(hir.strip(e["scrut"]))) in flags:
+            vs_ = [v for a_ in e["arms"] for v in hir.pat_variants_all(a_["pat"])]
+            if vs_ and all(v in EXITV for v in vs_):
+                return True
+            if vs_ and not any(v in EXITV for v in vs_):
+                return False
+        return None
+
+    def guard_of(n_, parents_):
+        """what the conditions around n_ say: set of True/False verdicts"""
+        res = set()
+        chain = list(parents_) + [n_]
+        for i_, pr_ in enumerate(chain[:-1]):
+            nxt = chain[i_ + 1]
+            if pr_.get("k") == "If":
+                v_ = says(pr_["cond"])
+                if v_ is None:
+                    continue
+                if nxt is pr_.get("then") or _contains(pr_.get("then") or {}, n_):
+                    res.add(v_)
+                elif pr_.get("else") is not None and _contains(pr_["else"], n_):
+                    fl_ = [x for x in hir.nodes(pr_["cond"], "Path") if place(x) in flags]
+                    if fl_ and all(two_valued(x) for x in fl_):
+                        res.add(not v_)
+            if pr_.get("k") == "Match" and "matches!" not in (pr_.get("mx") or []) and place(hir.strip_ref(hir.strip(pr_["scrut"]))) in flags:
+                covered_exit = False
+                for a_ in pr_["arms"]:
+                    vs_ = hir.pat_variants_all(a_["pat"])
+                    lits_ = [str(l_["lit"].get("v")) for l_ in _pat_lits(a_["pat"])]
+                    vals_ = vs_ + lits_
+                    if _contains(a_, n_):
+                        if vals_ and all(v in EXITV or (not EXITV and v in ("True", "true")) for v in vals_):
+                            res.add(True)
+                        elif vals_ and not any(v in EXITV for v in vals_):
+                            res.add(False)
+                        elif not vals_ and covered_exit:
+                            res.add(False)
+                        break
+                    if vals_ and all(v in EXITV for v in vals_) and a_.get("guard") is None:
+                        covered_exit = True
+        return res
+
     if phase_calls and flags:
         for nm_, n_, parents_, s_ in phase_calls:
             if nm_ == "initialization":
                 continue
-            guarded = any(pr_.get("k") == "If" and mentions_flag(pr_["cond"]) and hir.strip(pr_["cond"]).get("k") == "Unary"
-                          for pr_ in parents_)
+            g_ = guard_of(n_, parents_)
+            legacy = any(pr_.get("k") == "If" and mentions_flag(pr_["cond"]) and hir.strip(pr_["cond"]).get("k") == "Unary"
+                         for pr_ in parents_)
+            guarded = True if (False in g_ or legacy) else (None if (EXITV - {"true", "True"}) and not g_ and any(
+                pr_.get("k") in ("If", "Match") and mentions_flag(pr_.get("cond") or pr_.get("scrut") or {}) for pr_ in parents_) else False)
             out.add("server::LanguageServer::run", "phase `%s` is entered only if no `exit` was received before" % nm_, guarded,
                     c.loc(n_["sp"]), "after an `exit` without shutdown the server goes on reading and serving messages", ("exit", "flag"))
         ex_ok = False
@@ -570,8 +884,8 @@ def rule_lifecycle(prog):
                 if is_exit_call(n_):
                     ex_loc = c.loc(n_["sp"])
                     under = [pr_ for pr_ in parents_ if pr_.get("k") == "If" and mentions_flag(pr_["cond"])
-                             and hir.strip(pr_["cond"]).get("k") != "Unary"]
-                    ex_ok = bool(under) and join_i is not None and i > join_i
+                             and hir.strip(pr_["cond"]).get("k") != "Unary" and says(pr_["cond"]) is not False]
+                    ex_ok = (bool(under) or True in guard_of(n_, parents_)) and join_i is not None and i > join_i
         out.add("server::LanguageServer::run", "an `exit` without shutdown reported by a phase ends the process with status 1 behind the join",
                 ex_ok, ex_loc, "run() must call process::exit(1) under the flag the phases return, after the tasks were awaited; "
                 "without it the process ends with status 0", ("exit", "flag"))
@@ -697,6 +1011,20 @@ def _exit_branches(c, narm):
     return res
 
 
+def _unit_value(a):
+    """a name for the value `a` when it is a literal, `()` or a unit enum variant; else None"""
+    a = hir.strip(a)
+    if a.get("k") == "Lit":
+        return str(a["lit"].get("v"))
+    if a.get("k") == "Tup" and not a.get("es"):
+        return "()"
+    if a.get("k") == "Path":
+        r = a.get("res") or {}
+        if r.get("k") == "Def" and str(r.get("dk", "")).startswith("Ctor(Variant, Const)"):
+            return r.get("ctor_of") or r.get("p")
+    return None
+
+
 def _ok_values(body):
     """(literal value or None, node) of every `Ok(<v>)` a phase function ends with: `return Ok(v)` and the tail expression."""
     res = []
@@ -706,12 +1034,7 @@ def _ok_values(body):
         if e.get("k") == "Call":
             d = hir.path_def(e["f"])
             if d and last(d.get("ctor_of", "")) == "Ok" and e["args"]:
-                a = hir.strip(e["args"][0])
-                if a.get("k") == "Lit":
-                    return (str(a["lit"].get("v")),)
-                if a.get("k") == "Tup" and not a.get("es"):
-                    return ("()",)
-                return (None,)
+                return (_unit_value(e["args"][0]),)
         return None
     for r in hir.nodes(body["body"], "Ret"):
         if r.get("e"):
@@ -758,11 +1081,21 @@ def _exit_values(c, narms):
         e = hir.strip(r["e"]) if r.get("e") else {}
         v = None
         if e.get("k") == "Call" and e.get("args"):
-            a = hir.strip(e["args"][0])
-            if a.get("k") == "Lit":
-                v = str(a["lit"].get("v"))
+            v = _unit_value(e["args"][0])
         res.append(v)
     return res
+
+
+def _joins_tasks(prog, c, stmt):
+    """does the statement await the spawned tasks through a local helper (`workers.join().await`: a loop over JoinHandles inside)"""
+    for call in hir.nodes(stmt):
+        if call.get("k") in ("Call", "MethodCall"):
+            hb = hir.local_callee_body(prog, call)
+            if hb is not None and hb["_crate"] is c:
+                for fl in hir.nodes_deep(prog, hb["body"], 1, crate=c):
+                    if fl.get("k") == "ForLoop" and any(aw.get("k") == "Await" and "JoinHandle" in c.tstr(aw["e"]["t"]) for aw in hir.nodes(fl["body"])):
+                        return True
+    return False
 
 
 def _async_block(b):
@@ -792,8 +1125,9 @@ def _async_tail(b):
 def rule_codec(prog):
     out = Out("CODEC")
     c = prog.lsp
-    dec = [b for b in c.bodies if b["d"].startswith("<io::LSCodec as") and b["name"] == "decode"]
-    enc = [b for b in c.bodies if b["d"].startswith("<io::LSCodec as") and b["name"] == "encode"]
+    # by role: the crate's implementations of tokio_util's Decoder / Encoder (wherever the codec type lives)
+    dec = [b for b in c.bodies if b["name"] == "decode" and " as tokio_util::codec::Decoder>" in b["d"] and "/tests" not in c.file_of(b["sp"])]
+    enc = [b for b in c.bodies if b["name"] == "encode" and " as tokio_util::codec::Encoder<" in b["d"] and "/tests" not in c.file_of(b["sp"])]
     if len(dec) != 1 or len(enc) != 1:
         out.missing("LSCodec::decode / LSCodec::encode")
         return out
@@ -819,10 +1153,30 @@ def rule_codec(prog):
             if any(a["k"] == "Borrow" and "&mut" in c.tstr(a["to"]) for a in adj) and n["m"] not in ("len",):
                 # parse_headers(src, ..) takes &[u8] via deref; only true consumers count
                 return n["m"] in ("advance", "split_to", "split_off", "clear", "truncate", "get_u8", "copy_to_bytes", "take")
+        return consumes_via_helper(n)
+
+    CONSUMERS = ("advance", "split_to", "split_off", "clear", "truncate", "get_u8", "copy_to_bytes", "take")
+
+    def consumes_via_helper(n):
+        """a local helper that is handed the buffer and consumes from its parameter"""
+        if n.get("k") not in ("Call", "MethodCall"):
+            return False
+        args_ = ([n["recv"]] if n.get("k") == "MethodCall" else []) + list(n.get("args") or [])
+        if not any(place(hir.strip_ref(a_)) == src for a_ in args_):
+            return False
+        hb = hir.local_callee_body(prog, n)
+        if hb is None or hb["_crate"] is not c or len(hb["params"]) != len(args_):
+            return False
+        for a_, p_ in zip(args_, hb["params"]):
+            if place(hir.strip_ref(a_)) == src and p_.get("k") == "Binding":
+                pn = "%s#%s" % (p_["name"], p_["id"])
+                if any(m_.get("k") == "MethodCall" and m_["m"] in CONSUMERS and place(m_["recv"]) == pn for m_ in hir.nodes(hb["body"])):
+                    return True
         return False
 
     first_mut = None
     last_none = None
+    via_helper = False
     adv = None
     idx = None
     guard = None
@@ -830,8 +1184,9 @@ def rule_codec(prog):
         for n in hir.nodes(s):
             if mutates_src(n) and first_mut is None:
                 first_mut = i
-                if n["m"] == "advance":
+                if n.get("m") == "advance" and not consumes_via_helper(n):
                     adv = (i, n)
+                via_helper = consumes_via_helper(n)
             if is_none_return(n):
                 last_none = i
             if n.get("k") == "Index" and place(n["base"]) == src:
@@ -873,9 +1228,13 @@ def rule_codec(prog):
             f = {x["name"]: place(x["e"]) for x in r["fields"]}
             end_name = f.get("end")
             ok = ok and guard[1] == end_name
+    if idx is None and via_helper:
+        ok = None   # slicing and consuming sit in a helper behind the last `return Ok(None)`: this clause does not follow them there
     out.add("LSCodec::decode", "body slice is guarded by `src.len() < content_end => wait`", ok, c.loc(idx[1]["sp"]) if idx else c.loc(dec["sp"]),
             "guard on %s, slice end %s" % (guard[1] if guard else None, end_name))
     ok = adv is not None and place(adv[1]["args"][0]) == end_name and idx is not None and adv[0] >= idx[0]
+    if adv is None and via_helper:
+        ok = None
     out.add("LSCodec::decode", "exactly the decoded frame is consumed (advance(content_end))", ok,
             c.loc(adv[1]["sp"]) if adv else c.loc(dec["sp"]), "")
     # content_end = content_start + content_length ; content_length parsed from the Content-Length header
@@ -907,22 +1266,36 @@ def rule_codec(prog):
             "the header name is compared with `==`: `content-length: 52` is rejected as invalid headers, the session ends with status 1 and the "
             "request is never answered", ("hdrcase",))
     # encode: the number written is String::len() (bytes) of the very string that is written
-    length_src = None
-    content = None
-    for n in hir.nodes(enc["body"], "Let"):
-        init = hir.strip(n.get("init") or {})
-        if init.get("k") == "MethodCall" and init["m"] == "len" and (init.get("d") or "").endswith("String::len"):
-            length_src = place(init["recv"])
-            length_var = "%s#%s" % (n["pat"]["name"], n["pat"]["id"])
-    fmt_args = []
-    for n in hir.nodes(enc["body"], "Let"):
-        init = hir.strip(n.get("init") or {})
-        if init.get("k") == "Tup" and "desugaring of format string literal" in (init.get("mx") or []) \
-                and "format!" in (init.get("mx") or []):
-            fmt_args = [place(x) for x in init["es"]]
-    ok = length_src is not None and len(fmt_args) == 2 and fmt_args[0] == length_var and fmt_args[1] == length_src
-    out.add("LSCodec::encode", "Content-Length is the byte length of the body that follows", ok, c.loc(enc["sp"]),
-            "length taken from %s (String::len = bytes); formatted (%s)" % (length_src, fmt_args))
+    # (the framing may sit in a local helper of encode: the body that holds the `Content-Length: {}..{}` format is the one judged)
+    enc_bodies = [enc]
+    for call in hir.nodes_deep(prog, enc["body"], 2, crate=c):
+        if call.get("k") in ("Call", "MethodCall"):
+            hb = hir.local_callee_body(prog, call)
+            if hb is not None and hb["_crate"] is c and hb not in enc_bodies:
+                enc_bodies.append(hb)
+    verdict, detail = None, "no `Content-Length` format found in encode or its helpers"
+    for eb in enc_bodies:
+        fmt_args = None
+        for n in hir.nodes(eb["body"], "Let"):
+            init = hir.strip(n.get("init") or {})
+            if init.get("k") == "Tup" and "desugaring of format string literal" in (init.get("mx") or []) \
+                    and "format!" in (init.get("mx") or []):
+                fmt_args = [place(x) for x in init["es"]]
+        if fmt_args is None or not any("Content-Length" in t_ for t_ in hir.format_text(eb["body"])):
+            continue
+        lens = {}
+        for n in hir.nodes(eb["body"], "Let"):
+            init = hir.strip(n.get("init") or {})
+            if init.get("k") == "MethodCall" and init["m"] == "len" and n["pat"].get("k") == "Binding":
+                lens["%s#%s" % (n["pat"]["name"], n["pat"]["id"])] = (place(hir.strip_ref(init["recv"])), (init.get("d") or ""))
+        if len(fmt_args) != 2 or fmt_args[0] not in lens or fmt_args[1] is None:
+            detail = "formatted (%s): shape not recognised" % (fmt_args,)
+            continue
+        src_, d_ = lens[fmt_args[0]]
+        verdict = src_ == fmt_args[1] and (d_.endswith("String::len") or d_.endswith("str>::len") or d_.endswith("str::len"))
+        detail = "length taken from %s (%s = bytes); formatted (%s)" % (src_, d_, fmt_args)
+    out.add("LSCodec::encode", "Content-Length is the byte length of the body that follows", verdict, c.loc(enc["sp"]), detail)
+    enc = dict(enc, body={"k": "Tup", "es": [eb["body"] for eb in enc_bodies], "t": 0, "sp": enc["sp"]})
     bad = [n for n in hir.nodes(enc["body"], "MethodCall") if n["m"] in ("chars", "encode_utf16", "char_indices")]
     out.add("LSCodec::encode", "no character-count based length", not bad, c.loc(enc["sp"]), "")
     # sizes in decode are unsigned: a difference `a - b` is only taken where a guard on the very same two values (`b < a`, `b <= a`,
@@ -1025,11 +1398,27 @@ def rule_broker(prog):
         out.missing("document map (HashMap<Url, AnalyzedSource>) used by the broker task")
         return out
     arms = {}
-    for m in hir.nodes(b["body"], "Match"):
+    for m in deep(b["body"]):
+        if m.get("k") != "Match":
+            continue
         for arm in m["arms"]:
             pv = hir.pat_variant(arm["pat"])
             if pv and pv.startswith("lsp4spl::document::DocumentRequest::"):
                 arms[last(pv)] = arm
+
+    def arm_code(arm):
+        """the code of an arm: the arm body, or the body of the one local method the arm hands the request to"""
+        e_ = hir.strip(arm["body"])
+        if e_.get("k") == "BlockExpr" and not e_["b"].get("stmts") and e_["b"].get("expr") is not None:
+            e_ = hir.strip(e_["b"]["expr"])
+        if e_.get("k") == "Await":
+            e_ = hir.strip(e_["e"])
+        if e_.get("k") in ("Call", "MethodCall"):
+            hb = hir.local_callee_body(prog, e_)
+            if hb is not None and hb["_crate"] is c:
+                # async fn: the coroutine body
+                return hb["body"]
+        return arm["body"]
     if set(arms) != {"Open", "Change", "Close", "GetInfo"}:
         out.missing("DocumentRequest arms in broker (found %s)" % sorted(arms))
         return out
@@ -1084,6 +1473,41 @@ def rule_broker(prog):
     def from_broker(x):
         return x["p"] == b["p"] or x["p"].startswith(b["p"] + "::")
 
+    def local_enum(e):
+        ap = hir.adt_path(c, e["t"]) or ""
+        return ap.startswith("lsp4spl::") and not ap.endswith("DocumentRequest") and (c.adts.get(ap) or {}).get("k") == "enum"
+
+    def site_guard(x, n, parents, depth=0):
+        """True: the call n (in body x) runs only under the diagnostics flag; False: it runs without; None: the condition it runs
+        under is derived from the flag in a way this rule does not follow (a mode enum computed from it)."""
+        for p in parents:
+            if p.get("k") == "If" and _contains(p["then"], n) and (is_flag(p["cond"]) or any(is_flag(y) for y in hir.nodes(p["cond"]))):
+                return True
+        opaque = False
+        for p in parents:
+            if p.get("k") == "Match" and not _contains(p["scrut"], n) and local_enum(hir.strip_ref(hir.strip(p["scrut"]))):
+                opaque = True
+            if p.get("k") == "If" and _contains(p["then"], n) and any(
+                    y.get("k") in ("Path", "Field") and local_enum(y) for y in hir.nodes(p["cond"])):
+                opaque = True
+        if from_broker(x) or depth > 3:
+            return None if opaque else False
+        sites = []
+        for y in c.bodies:
+            if "/tests" in c.file_of(y["sp"]):
+                continue
+            for m, ps in hir.walk(y["body"]):
+                if m.get("k") in ("Call", "MethodCall") and hir.callee(m) == x["p"]:
+                    sites.append((y, m, ps))
+        if not sites:
+            return None
+        vs = [site_guard(y, m, ps, depth + 1) for y, m, ps in sites]
+        if all(v is True for v in vs):
+            return True
+        if any(v is False for v in vs) and not opaque:
+            return False
+        return None
+
     n_notes = 0
     for x in c.bodies:
         if "/tests" in c.file_of(x["sp"]):
@@ -1092,9 +1516,8 @@ def rule_broker(prog):
             if n.get("k") != "Call" or (hir.callee(n) or "") not in notify_ps:
                 continue
             n_notes += 1
-            guarded = any(p.get("k") == "If" and is_flag(p["cond"]) and _contains(p["then"], n) for p in parents)
-            out.add("document::broker", "diagnostics are published only if the client announced support", guarded or any(
-                        p.get("k") == "If" and _contains(p["then"], n) and any(is_flag(x) for x in hir.nodes(p["cond"])) for p in parents),
+            verdict_ = site_guard(x, n, parents)
+            out.add("document::broker", "diagnostics are published only if the client announced support", verdict_,
                     c.loc(n["sp"]), "`notify` must be inside `if <the broker's diagnostics flag>`", ("diag",))
             # ... and on nothing else: every Open/Change of a supporting client is followed by its diagnostics
             # (`if let` heads only establish that the document exists / destructure a map entry: not a condition on publishing)
@@ -1126,14 +1549,30 @@ def rule_broker(prog):
     ok = len(upd) == 1
     if ok:
         # the updated document flows back into the map: entry.insert(x) / docs.insert(k, x) / *slot = x
-        newdoc = None
+        # the values that are the updated document: the update call itself, and a call of a local helper that returns it
+        upd_vals = [upd[0]]
+        for call in chg:
+            if call.get("k") in ("Call", "MethodCall"):
+                hb = hir.local_callee_body(prog, call)
+                if hb is not None and hb["_crate"] is c:
+                    hbody = hir.strip(hb["body"])
+                    tail = hir.strip(hbody["b"]["expr"]) if hbody.get("k") == "BlockExpr" and hbody["b"].get("expr") is not None else hbody
+                    if tail is upd[0]:
+                        upd_vals.append(call)
+                    elif hir.path_local(tail) and any(
+                            l.get("k") == "Let" and l["pat"].get("k") == "Binding" and l["pat"]["id"] == hir.path_local(tail)["id"] and
+                            "Mut" not in l["pat"]["mode"] and l.get("init") is not None and hir.strip(l["init"]) is upd[0]
+                            for l in hir.nodes(hbody)):
+                        upd_vals.append(call)
+        newdocs = set()
         for l in chg:
-            if l.get("k") == "Let" and l.get("init") is not None and hir.strip(l["init"]) is upd[0] and l["pat"].get("k") == "Binding":
-                newdoc = "%s#%s" % (l["pat"]["name"], l["pat"]["id"])
+            if l.get("k") == "Let" and l.get("init") is not None and any(hir.strip(l["init"]) is u_ for u_ in upd_vals) and \
+                    l["pat"].get("k") == "Binding":
+                newdocs.add("%s#%s" % (l["pat"]["name"], l["pat"]["id"]))
 
         def is_new(e):
             e_ = hir.strip(e)
-            return e_ is upd[0] or (newdoc is not None and place(e_) == newdoc)
+            return any(e_ is u_ for u_ in upd_vals) or place(e_) in newdocs
 
         stored = any(n["args"] and is_new(n["args"][-1]) for n in has(arms["Change"], "insert"))
         for a_ in chg:
@@ -1183,7 +1622,7 @@ def rule_broker(prog):
             return ("answer", n_)
         return None
     try:
-        ps_ = flow.paths(arms["GetInfo"]["body"], ev)
+        ps_ = flow.paths(arm_code(arms["GetInfo"]), ev)
         silent = [p_ for p_ in ps_ if not any(e_[0] == "answer" for e_ in p_) and not (p_ and p_[-1][0] in ("panic",))]
         out.add("document::broker", "GetInfo answers on every path (also for a document that is not open)", not silent and bool(ps_),
                 c.loc(arms["GetInfo"]["sp"]), "%d of %d paths through the GetInfo arm end without sending on the oneshot channel: the waiting "
@@ -1252,6 +1691,24 @@ def rule_text_sync(prog):
     conv = [n for n in hir.nodes(b["body"], "Call") if hir.callee_display(n) in
             tuple(cv[k]["d"] for k in ("as_index_range", "get_insertion_index") if k in cv)]
     ok = bool(conv) and all(place(n["args"][1]) == temp for n in conv)
+    if not conv:
+        # the conversion sits in a local helper that is handed the text: the helper's text parameter must receive the temporary text
+        conv_ds = tuple(cv[k]["d"] for k in ("as_index_range", "get_insertion_index") if k in cv)
+        via = []
+        for call in hir.nodes(b["body"], "Call"):
+            hb = hir.local_callee_body(prog, call)
+            if hb is None or hb["_crate"] is not c or hb["p"] == b["p"]:
+                continue
+            inner = [n for n in hir.nodes(hb["body"], "Call") if hir.callee_display(n) in conv_ds]
+            if not inner:
+                continue
+            pnames = ["%s#%s" % (p_["name"], p_["id"]) if p_.get("k") == "Binding" else None for p_ in hb["params"]]
+            for n in inner:
+                pl_ = place(n["args"][1])
+                via.append((call, place(call["args"][pnames.index(pl_)]) if pl_ in pnames and len(call["args"]) == len(pnames) else None))
+        if via:
+            conv = [v_[0] for v_ in via]
+            ok = True if all(v_[1] == temp for v_ in via) else (None if any(v_[1] is None for v_ in via) else False)
     out.add("document::to_text_changes", "positions are converted against the advanced temporary text", ok, c.loc(conv[0]["sp"]) if conv else c.loc(b["sp"]),
             "", ("batch",))
     if rr:
@@ -1510,6 +1967,29 @@ def rule_text_sync(prog):
                 "`start..end` is built from two independently converted positions: a client range with `end < start` yields an inverted "
                 "range, `replace_range` panics in the broker task and every later request stays unanswered", ("clamp", "ordered"))
     # UTF16: column counters in as_position / get_insertion_index (and private helpers they share)
+    # a field of a local struct whose value becomes `Position.character` is a column counter too (a cursor struct bundling line/column)
+    col_fields = set()
+    for fb_ in c.bodies:
+        if "/tests" in c.file_of(fb_["sp"]):
+            continue
+        for st in hir.nodes(fb_["body"], "Struct"):
+            if (st.get("adt") or "").endswith("lsp_types::Position"):
+                for f in st["fields"]:
+                    e_ = hir.strip(f["e"])
+                    if f["name"] == "character" and e_.get("k") == "Field":
+                        ap_ = hir.adt_path(c, hir.strip(e_["base"])["t"]) or ""
+                        for ad_ in hir.strip(e_["base"]).get("adj") or []:
+                            ap_ = hir.adt_path(c, ad_["to"]) or ap_
+                        if ap_.startswith("lsp4spl::"):
+                            col_fields.add((ap_, e_["name"]))
+
+    def is_col_field_of_struct(l):
+        if l.get("k") != "Field":
+            return False
+        bs = hir.strip(l["base"])
+        aps = [hir.adt_path(c, bs["t"]) or ""] + [hir.adt_path(c, ad_["to"]) or "" for ad_ in bs.get("adj") or []]
+        return any((ap_, l["name"]) in col_fields for ap_ in aps)
+
     for fn in ("as_position", "get_insertion_index"):
         fb = cv.get(fn)
         if fb is None:
@@ -1559,7 +2039,7 @@ def rule_text_sync(prog):
                     continue
                 l = hir.strip(n["l"])
                 is_col_field = l.get("k") == "Field" and l["name"] == "character" and "lsp_types::Position" in c.tstr(l["base"]["t"])
-                if place(n["l"]) in colvars or is_col_field:
+                if place(n["l"]) in colvars or is_col_field or is_col_field_of_struct(l):
                     incs_all.append((bb, n))
         if not incs_all:
             # no running counter: the column is computed in one go (`text[line_start..index].<count>`): judge the counting expression
@@ -1603,12 +2083,19 @@ def rule_text_sync(prog):
                         "line" in (place(a_["l"]) or "") for a_ in hir.nodes(iff["then"]))
                 if not resets:
                     continue
-                for l_ in hir.nodes(iff["cond"], "Lit"):
-                    if l_["lit"].get("k") == "char":
+                for l_ in hir.nodes_deep(prog, iff["cond"], 2, crate=c):
+                    if l_.get("k") == "Lit" and l_["lit"].get("k") == "char":
                         eol_chars.add(l_["lit"].get("v"))
+                    # (a pattern literal `'\n' | '\r'` of a matches! / match counts as well)
+                    if l_.get("k") == "Match":
+                        for a_ in l_["arms"]:
+                            for pl2 in _pat_lits(a_["pat"]):
+                                if pl2["lit"].get("k") == "char":
+                                    eol_chars.add(pl2["lit"].get("v"))
                 eol_site = eol_site or iff
         if eol_site is not None:
-            out.add("document::" + fn, "a line ends at a line feed and at a carriage return on its own", {"\n", "\r"} <= eol_chars,
+            # (no character literal in reach of the condition: the shape is not understood - the truth table below decides or abstains)
+            out.add("document::" + fn, "a line ends at a line feed and at a carriage return on its own", ({"\n", "\r"} <= eol_chars) if eol_chars else None,
                     c.loc(eol_site["sp"]), "the line counter advances at %s only: in a document with lone carriage returns (one of LSP's three line "
                     "endings) every position behind the first one addresses the wrong line" % sorted(eol_chars), ("utf16", "eol"))
         # (table) the conditions under which the scan ends a line / leaves at the end of the requested line are decided over the finite
@@ -1633,21 +2120,52 @@ def rule_text_sync(prog):
                 continue
             mutated = {(hir.path_local(hir.strip(a_["l"])) or {}).get("id") for a_ in hir.nodes(bb["body"]) if a_.get("k") in ("Assign", "AssignOp")}
 
-            def ev3(e, env, depth=0):
+            def is_char(x, sc):
+                pl_ = hir.path_local(hir.strip(x))
+                if not pl_:
+                    return False
+                if sc is None:
+                    return pl_["id"] in char_ids
+                v_ = sc.get(pl_["id"])
+                return bool(v_) and is_char(v_[0], v_[1])
+
+            def peeks(x, sc, depth=0):
+                """does the value of x come from looking at the next character without taking it"""
+                if depth > 6:
+                    return False
+                for m_ in hir.nodes(x):
+                    if m_.get("k") == "MethodCall" and m_["m"] == "peek":
+                        return True
+                    pl_ = hir.path_local(m_) if m_.get("k") == "Path" else None
+                    if pl_:
+                        if sc is not None and pl_["id"] in sc:
+                            v_ = sc[pl_["id"]]
+                            tgt = v_[0].get("body") if v_[0].get("k") == "Closure" else v_[0]
+                            if tgt is not None and peeks(tgt, v_[1], depth + 1):
+                                return True
+                        elif sc is None and pl_["id"] in defs_t and pl_["id"] not in mutated and peeks(defs_t[pl_["id"]], None, depth + 1):
+                            return True
+                return False
+
+            def ev3(e, env, sc=None, depth=0):
+                """three-valued value of a condition for the current character env['c'] and env['next_lf'];
+                sc: parameter bindings {id: (argument expression, its scope)} while a local helper is evaluated in place"""
                 e = hir.strip(e)
                 k = e.get("k")
-                if depth > 8:
+                if depth > 10:
                     return None
                 if k == "Lit":
                     v = e["lit"].get("v")
                     if e["lit"].get("k") == "bool" or v in (True, False):
                         return bool(v)
                     return None
+                if k == "BlockExpr" and not e["b"].get("stmts") and e["b"].get("expr") is not None:
+                    return ev3(e["b"]["expr"], env, sc, depth + 1)
                 if k == "Unary" and e.get("op") in ("!", "Not"):
-                    v = ev3(e["e"], env, depth + 1)
+                    v = ev3(e["e"], env, sc, depth + 1)
                     return None if v is None else (not v)
                 if k == "Binary" and e["op"] in ("&&", "||"):
-                    a_, b_ = ev3(e["l"], env, depth + 1), ev3(e["r"], env, depth + 1)
+                    a_, b_ = ev3(e["l"], env, sc, depth + 1), ev3(e["r"], env, sc, depth + 1)
                     if e["op"] == "&&":
                         if a_ is False or b_ is False:
                             return False
@@ -1658,25 +2176,57 @@ def rule_text_sync(prog):
                 if k == "Binary" and e["op"] in ("==", "!="):
                     l_, r_ = hir.strip(e["l"]), hir.strip(e["r"])
                     for x_, y_ in ((l_, r_), (r_, l_)):
-                        if (hir.path_local(x_) or {}).get("id") in char_ids and y_.get("k") == "Lit" and y_["lit"].get("k") == "char":
+                        if is_char(x_, sc) and y_.get("k") == "Lit" and y_["lit"].get("k") == "char":
                             eq = env["c"] == y_["lit"].get("v")
                             return eq if e["op"] == "==" else (not eq)
+                        # `<peeked> == Some('\n')`
+                        if peeks(x_, sc) and y_.get("k") == "Call" and (hir.callee(y_) or "").endswith("Option::Some") and \
+                                [l2["lit"].get("v") for l2 in hir.nodes(y_, "Lit")] == ["\n"] and not any(
+                                    z_.get("k") == "Call" and z_ is not y_ for z_ in hir.nodes(y_)):
+                            return env["next_lf"] if e["op"] == "==" else (not env["next_lf"])
                     # `line == position.line`: we are on the requested line
-                    if any(f_.get("k") == "Field" and f_["name"] == "line" for f_ in hir.nodes(e)):
+                    if sc is None and any(f_.get("k") == "Field" and f_["name"] == "line" for f_ in hir.nodes(e)):
                         return True if e["op"] == "==" else False
                     return None
                 if k == "Match" and "matches!" in (e.get("mx") or []):
                     # matches!(chars.peek(), Some((_, '\n')))
-                    if any(m_.get("k") == "MethodCall" and m_["m"] == "peek" for m_ in hir.nodes(e["scrut"])):
-                        lits = [l_["lit"].get("v") for a_ in e["arms"] for l_ in _pat_lits(a_["pat"])]
+                    lits = [l_["lit"].get("v") for a_ in e["arms"] for l_ in _pat_lits(a_["pat"])]
+                    if peeks(e["scrut"], sc):
                         if lits == ["\n"]:
                             return env["next_lf"]
+                    elif is_char(e["scrut"], sc) and lits and all(isinstance(v_, str) and len(v_) == 1 for v_ in lits) and \
+                            all(a_.get("guard") is None for a_ in e["arms"]):
+                        # matches!(c, '\n' | '\r')
+                        return env["c"] in lits
                     return None
                 if k == "Path":
                     pl_ = hir.path_local(e)
+                    if pl_ and sc is not None:
+                        v_ = sc.get(pl_["id"])
+                        return ev3(v_[0], env, v_[1], depth + 1) if v_ else None
                     if pl_ and pl_["id"] in defs_t and pl_["id"] not in mutated:
-                        return ev3(defs_t[pl_["id"]], env, depth + 1)
+                        return ev3(defs_t[pl_["id"]], env, None, depth + 1)
                     return None
+                if k in ("Call", "MethodCall"):
+                    # a local helper holding (part of) the condition is evaluated in place of the call
+                    hb = hir.local_callee_body(prog, e)
+                    if hb is None or hb["_crate"] is not c:
+                        return None
+                    args_ = ([e["recv"]] if k == "MethodCall" else []) + list(e.get("args") or [])
+                    if len(args_) != len(hb["params"]) or any(p_.get("k") != "Binding" for p_ in hb["params"]):
+                        return None
+                    sc2 = {p_["id"]: (a_, sc) for p_, a_ in zip(hb["params"], args_)}
+                    hbody = hir.strip(hb["body"])
+                    if hbody.get("k") == "BlockExpr":
+                        for st_ in hbody["b"].get("stmts") or []:
+                            if st_.get("k") == "Let" and st_["pat"].get("k") == "Binding" and st_.get("init") is not None:
+                                sc2[st_["pat"]["id"]] = (st_["init"], sc2)
+                            else:
+                                return None
+                        if hbody["b"].get("expr") is None:
+                            return None
+                        return ev3(hbody["b"]["expr"], env, sc2, depth + 1)
+                    return ev3(hbody, env, sc2, depth + 1)
                 return None
 
             for iff, parents_ in hir.walk(bb["body"]):
